@@ -232,6 +232,22 @@ func compileC07(main string, fsys fs.FS, utf16pos bool) c07Out {
 // i.e. the import machinery itself crashed (in the slice), not the compiler proper on what
 // an import delivered.
 func panicInImportCode(p string) bool {
+	return strings.Contains(innermostD2Frame(p), "/d2ir/import.go:")
+}
+
+// panicSummary is what goes into the trace: the message and where in d2 it happened (the
+// full text has goroutine numbers and addresses, which differ from process to process).
+func panicSummary(p string) string {
+	first := p
+	if i := strings.IndexByte(p, '\n'); i >= 0 {
+		first = p[:i]
+	}
+	return first + " at " + innermostD2Frame(p)
+}
+
+// innermostD2Frame returns the file:line of the innermost frame of d2 in a recovered
+// panic's stack ("" if none).
+func innermostD2Frame(p string) string {
 	lines := strings.Split(p, "\n")
 	seenPanic := false
 	for i, l := range lines {
@@ -240,10 +256,10 @@ func panicInImportCode(p string) bool {
 			continue
 		}
 		if seenPanic && strings.HasPrefix(l, "oss.terrastruct.com/d2/") && i+1 < len(lines) {
-			return strings.Contains(lines[i+1], "/d2ir/import.go:")
+			return strings.TrimSpace(lines[i+1])
 		}
 	}
-	return false
+	return ""
 }
 
 type c07Sample struct {
@@ -408,7 +424,7 @@ func runC07(cfg harness.Config, idx int, tp *tape.Tape) harness.Result {
 		// is the input-space half of C07, which this slice samples but does not decide
 		// (DESIGN.md). It is counted and shown in the evidence, not reported.
 		res.Probe("input_space_crash_observed_outside_the_slice")
-		res.Tracef("one-shot compile panicked (input-space, outside the slice): %s\nmain=%q\nfiles: %s", clip(r0.Panic), clip(main), describe(files))
+		res.Tracef("one-shot compile panicked (input-space, outside the slice): %s\nmain=%q\nfiles: %s", panicSummary(r0.Panic), clip(main), describe(files))
 		res.Sample = c07Sample{Main: clip(main), Files: names, Edges: edgeDesc, Cyclic: cyc}
 		return res
 	}
@@ -477,6 +493,13 @@ func runC07(cfg harness.Config, idx int, tp *tape.Tape) harness.Result {
 		changed = true
 	}
 	r1 := compileC07(main, flt, utf16pos)
+	if strings.HasPrefix(r1.Panic, "panic:") && !panicInImportCode(r1.Panic) {
+		// what a failing or changing file system delivered is another program, and the
+		// compiler proper crashed on it: input space again (see above)
+		res.Probe("input_space_crash_observed_outside_the_slice")
+		res.Tracef("compile under faults panicked in the compiler proper (input-space, outside the slice): %s", panicSummary(r1.Panic))
+		return res
+	}
 	if !verdict("chunked/faulty delivery", r1) {
 		return res
 	}
